@@ -31,6 +31,8 @@ Variants == {"genuine",        \* produced and sealed by X itself, newer than an
              "resealed",       \* produced by another router Z but claiming X as source (sealed with Z's key)
              "replayed",       \* a genuine ping of X delivered again after newer ones
              "replayed-after-rekey", \* ... and after the victim itself completed a new key exchange with X in between
+             "forged-at-newest-stamp", \* made by a router without X's key as a HOP ping (the class for which an immediate duplicate is tolerated)
+                               \* claiming X, carrying exactly the time stamp of X's newest accepted signed frame
              "transit",        \* only TTL / flow flags changed (must stay effective)
              "first-genuine",  \* first contact: header key hashes to the (unknown) source address
              "first-badkey"}   \* first contact: header carries a key that does not hash to the source
